@@ -39,7 +39,7 @@ ENUM_EXHAUSTIVE = {'thorough': 'all ordered pairs of call signatures with 0-2 po
 
 VALS = [0, 1, 1.0, True, 'a', 'b', (1, 2), (1.0, 2), None, frozenset({1}), -1, -2, ('x', 1), ('y', 1), ('x', 'a')]     # hash(-1) == hash(-2): unequal, same hash
 NAMES = ['x', 'y', 'z']
-CACHES = ['default', 'dict', 'empty-mapping', 'lru', 'lru.LRU']
+CACHES = ['default', 'dict', 'empty-mapping', 'lru', 'lru.LRU', 'null']
 
 
 class LogMapping(MutableMapping):
@@ -74,6 +74,28 @@ class LogMapping(MutableMapping):
         return len(self.d)
 
 
+class NullMapping(MutableMapping):
+    """A store that retains nothing (evicts on insert, e.g. a zero-sized or expired cache)."""
+
+    def __init__(self):
+        self.sets = []
+
+    def __getitem__(self, k):
+        raise KeyError(k)
+
+    def __setitem__(self, k, v):
+        self.sets.append((k, v))
+
+    def __delitem__(self, k):
+        raise KeyError(k)
+
+    def __iter__(self):
+        return iter(())
+
+    def __len__(self):
+        return 0
+
+
 class Interp:
     def __init__(self, cache_kind, size):
         from aiuti.asyncio import threadsafe_async_cache
@@ -96,6 +118,8 @@ class Interp:
             self.store = LogMapping()
         elif cache_kind == 'lru':
             self.store = LogMapping(bound=size)
+        elif cache_kind == 'null':
+            self.store = NullMapping()
         elif cache_kind == 'lru.LRU':
             try:
                 from lru import LRU
@@ -212,7 +236,11 @@ class Interp:
             for k in new:
                 self.assoc.setdefault(_ident(k), mk)
             if not expect_hit and ninv >= 1:
-                if not any(v is got for v in self.store.values()) and len(after) == len(before_keys):
+                if self.kind == 'null':
+                    if not (self.store.sets and self.store.sets[-1][1] is got):
+                        self.viol.append(V('store-not-used', f'{desc}: the computed value was not offered to the supplied mapping',
+                                           'store-not-used'))
+                elif not any(v is got for v in self.store.values()) and len(after) == len(before_keys):
                     self.viol.append(V('store-not-used', f'{desc}: the computed value is not in the supplied mapping afterwards '
                                        f'(mapping holds {len(after)} entries)', 'store-not-used'))
             self._sync()
